@@ -351,6 +351,7 @@ def tight_stack(ctx, jobs, deltas=(8, 1, 0, -1), label='tight-stack', timetravel
     res = hidlib.run_parallel(runs)
     tally = {}
     jobmap = {j[0]: j for j in jobs}
+    jobmap_src = {j[0]: j[1] for j in jobs}
     nviol = 0
     for rid, r in res.items():
         cid, d = rid.rsplit('@', 1); d = int(d)
@@ -366,7 +367,9 @@ def tight_stack(ctx, jobs, deltas=(8, 1, 0, -1), label='tight-stack', timetravel
             elif k.startswith('inconclusive'): tally[k] = tally.get(k, 0) + 1
         else:
             if 'stack_overflow' not in rv.flags: kind = 'NO-OVERFLOW-BELOW-MINIMUM'
-            elif not timetravel and rs.outcome == 'terminal' and not rs.output.startswith(rv.output):
+            elif not timetravel and 'try' not in jobmap_src.get(cid, '') and rs.outcome == 'terminal' and not rs.output.startswith(rv.output):
+                # (a program with a `try` is a time-travel program whatever stream it came from: the stack_overflow stub does not
+                # halt, so an overflow inside a try body commits the body although the run with enough stack undoes it)
                 kind = 'OUTPUT-BEFORE-OVERFLOW-NOT-A-PREFIX'
         tally[kind or 'ok'] = tally.get(kind or 'ok', 0) + 1
         if kind and nviol < 3:
